@@ -580,18 +580,30 @@ def run(tier):
             for kind, idxs in sorted(dis_by_kind.items()):
                 i = min(idxs, key=lambda j: len(lines[j]))
 
-                def dpred(cs, kind=kind):
+                sig0 = (impl_head(impl[i], cases[i][1]).split(' ')[0], str(impl[i].get('err'))[:48],
+                        split_model(model[i])[0].split(' ')[0])
+
+                def dpred(cs, kind=kind, sig0=sig0):
+                    # the shrunk case must show the SAME disagreement: same kind, same accept/reject
+                    # pattern and (for a rejection) the same error of the real compiler
                     ls = [G.enc_case(*c) for c in cs]
                     rs = run_impl(ls)
                     ms = lib.run_model(exe, ls)
-                    return [compare(c, r, m)[0] == kind for c, r, m in zip(cs, rs, ms)]
+                    out = []
+                    for c, r, m in zip(cs, rs, ms):
+                        sig = (impl_head(r, c[1]).split(' ')[0], str(r.get('err'))[:48], split_model(m)[0].split(' ')[0])
+                        out.append(compare(c, r, m)[0] == kind and sig == sig0)
+                    return out
                 small = shrink(cases[i], dpred)
                 sline, r = one(small)
                 rep.violation(f'correspondence broken ({kind}): the real compiler and the model disagree on '
                               f'{len(idxs)} of {len(cases)} generated queries; no monitor failed',
                               {'broken': 'correspondence C06 Model.run_infer vs edb.edgeql.compiler inference',
                                'case': sline, 'query': r.get('q'), 'impl': impl_head(r, small[1]),
-                               'model': lib.run_model(exe, [sline])[0], 'disagreements': len(idxs)}, False)
+                               'impl_error': r.get('err'),
+                               'model': lib.run_model(exe, [sline])[0], 'disagreements': len(idxs),
+                               'original_case': lines[i], 'original_query': impl[i].get('q'),
+                               'original_impl_error': impl[i].get('err')}, False)
                 break
             if eval_diffs:
                 i, fd = eval_diffs[0]
